@@ -176,12 +176,26 @@ namespace c20
     };
     reg().convs.push_back(c);
   }
+  template<typename To, typename From>
+  void reg_xclone()
+  {
+    if constexpr(!std::is_same<To, From>::value)
+    {
+      XClone x; x.from = key_of<From>(); x.to = key_of<To>();
+      x.fn = [](const AnyC& s, AnyC& t, int mode)
+      {
+        static_cast<Holder<To>&>(t).m.clone(static_cast<const Holder<From>&>(s).m, CloneMode(mode));
+        t.foreign = false; t.view_base = nullptr; t.husk = false;
+      };
+      reg().xclones.push_back(x);
+    }
+  }
   // all DT/IT conversions inside one family F<DT,IT>; sharing per Container::assign (deep = always a deep copy)
   template<template<typename, typename> class F>
   void reg_type_convs(const std::string& kind, bool deep)
   {
     const std::string op = kind + ".convert<-" + kind;
-#define C20_TC(D1, I1, D2, I2) reg_conv<F<D1, I1>, F<D2, I2>>(op, (!deep && std::is_same<D1, D2>::value) ? 1 : 0, (!deep && std::is_same<I1, I2>::value) ? 1 : 0);
+#define C20_TC(D1, I1, D2, I2) reg_conv<F<D1, I1>, F<D2, I2>>(op, (!deep && std::is_same<D1, D2>::value) ? 1 : 0, (!deep && std::is_same<I1, I2>::value) ? 1 : 0); reg_xclone<F<D1, I1>, F<D2, I2>>();
 #define C20_TC4(D1, I1) C20_TC(D1, I1, float, std::uint32_t) C20_TC(D1, I1, float, std::uint64_t) C20_TC(D1, I1, double, std::uint32_t) C20_TC(D1, I1, double, std::uint64_t)
     C20_TC4(float, std::uint32_t) C20_TC4(float, std::uint64_t) C20_TC4(double, std::uint32_t) C20_TC4(double, std::uint64_t)
 #undef C20_TC4
